@@ -33,10 +33,11 @@ def main():
     ap.add_argument("--keep-as", default=None)
     ap.add_argument("--needs", default="")
     ap.add_argument("--skip-confirm", action="store_true")
+    ap.add_argument("--root", default="/tmp/mut")
     ap.add_argument("--from-seeded", default=None, help="re-run a kept change: a temporary worktree of /repo HEAD is created, "
                     "seeded/<id>/patch.diff applied, the checks run against it, and the worktree removed")
     a = ap.parse_args()
-    wt = f"/tmp/mut/{a.prop}"
+    wt = f"{a.root}/{a.prop}"
     diff, demo = f"{wt}/mut{a.n}.diff", f"demo{a.n}.py"
     tmp_wt = None
     if a.from_seeded:
